@@ -9,7 +9,7 @@ TECHNIQUE = 'bounded exhaustive enumeration of all drop profiles up to n rows ov
 RULE = ('cells = every drop profile of 1..5 rows (thorough 6) with drops in {-2,-1,0,1,2} in; each cell asks every target row, a request '
         'between each pair of rows and one beyond the last row, for half-heights {0.25,0.5,1,1.5,2.25,5} in; real part: trajectories '
         '(600-yd zero, flat 100-yd zero, 30-degree arc; look 0 and 15 deg; 1-yd and 10-yd rows) x every 25 yd on both branches x 4 heights; '
-        'non-trivial = profile with >= 3 rows that is not constant (so a bound can lie strictly inside)')
+        'non-trivial = profile with >= 3 rows that is not constant (so a bound can lie strictly inside); history part: one long-lived result object, every sequence of <= 3 (thorough 4) operations over {8 requests as quantities or bare numbers, 3 display-preference switches}, each answer judged by the same oracle')
 ASSUMPTIONS = ['the requested range of an inclined trajectory may be read as horizontal or as look distance (either, consistently)', 'drop levels and heights outside the alphabet are represented by their order relations with h/2 only',
                'comparisons use 1e-9 in slack on real trajectories']
 LEVEL_TEXT = ('All profiles up to the bound are enumerated (rising, falling, arcing, oscillating), so both branches and every position of '
@@ -155,7 +155,47 @@ def real(cell):
             'obs': [rising > 0, falling > 0]}
 
 
-PARTS = {'synthetic': synthetic, 'real': real}
+H_ASKS = [['ask', at, h, form] for form in ('q', 'bare') for at in (20.0, 35.0) for h in (1.0, 3.0)]
+H_PREFS = [['pref', n] for n in ('default', 'metric', 'cm_yd')]
+H_PROFILES = {'arc': [-2, 0, 1, 2, 0, -2], 'wave': [0, 2, -1, 1, -2, 0]}
+_PREFS = {'default': (), 'cm_yd': (('drop', 'Centimeter'), ('target_height', 'Yard')), 'metric': (('drop', 'Centimeter'), ('target_height', 'Meter'), ('distance', 'Meter'))}
+
+
+def history(cell):
+    """ONE long-lived result object asked again and again while the display preferences change in between: every answer must be the answer
+    to the question as asked now (a bare number is that number in the unit preferred NOW) - judged by the same literal oracle"""
+    import py_ballisticcalc as pb
+    prof, ops = cell
+    drops = H_PROFILES[prof]
+    rows = [_row(i, d) for i, d in enumerate(drops)]
+    hr = pb.HitResult(None, rows, True)
+    out = []
+    n = 0
+    for k, op in enumerate(ops):
+        if op[0] == 'pref':
+            pb.PreferredUnits.defaults()
+            for slot, un in _PREFS[op[1]]:
+                setattr(pb.PreferredUnits, slot, pb.Unit[un])
+            continue
+        _, at, h, form = op
+        if form == 'q':
+            at_q, h_q = pb.Unit.Yard(at), pb.Unit.Inch(h)
+            ds = hr.danger_space(at_q, h_q, pb.Unit.Degree(0))
+        else:
+            at_q, h_q = pb.PreferredUnits.distance(at), pb.PreferredUnits.target_height(h)
+            ds = hr.danger_space(at, h, 0.0)
+        n += 1
+        o, bec = oracle(rows, at_q.raw_value, (h_q >> pb.Unit.Inch) / 2, ds, slack=1e-9)
+        for msg in o[:1]:
+            out.append({'msg': f'profile {drops}, one result object, after {ops[:k]}: {op} -> {msg}', 'key': None})
+        if out:
+            break
+    pb.PreferredUnits.defaults()
+    asks = sum(1 for op in ops if op[0] == 'ask')
+    return {'v': out, 'n': n, 'states': 1, 'transitions': n, 'traces': 1, 'nt': cell if asks >= 2 and asks < len(ops) else None}
+
+
+PARTS = {'synthetic': synthetic, 'real': real, 'history': history}
 
 
 def plan(tier):
@@ -170,4 +210,7 @@ def plan(tier):
             rl.append([{'look': look, 'zero': 30.0, 'mv': 1200.0, 'dm': 'G1', 'bc': 0.3}, 0, 800, step])
     if tier == 'quick':
         rl = [c for c in rl if c[3] == 10] + [c for c in rl if c[3] == 1][:1]
-    return [('synthetic', syn), ('real', rl)]
+    alpha = H_ASKS + H_PREFS
+    depth = 3 if tier == 'quick' else 4
+    hs = [[prof, list(seq)] for prof in H_PROFILES for d in range(1, depth + 1) for seq in itertools.product(alpha, repeat=d) if seq[-1][0] == 'ask']
+    return [('synthetic', syn), ('real', rl), ('history', hs)]
